@@ -5,6 +5,8 @@ import (
 	"os"
 	"os/exec"
 	"path/filepath"
+	"regexp"
+	"strconv"
 	"strings"
 	"testing"
 	"unicode"
@@ -14,6 +16,7 @@ import (
 	"gopkg.in/yaml.v3"
 	"pgregory.net/rapid"
 	"verifharness/refparse"
+	"verifharness/theory"
 )
 
 // C04 - the accepted language is exactly the documented grammar; trees faithful.
@@ -23,6 +26,7 @@ type C04Case struct {
 	CLI  bool   `json:"cli,omitempty"`
 	File bool   `json:"file,omitempty"` // CLI: the text is the FILE argument instead of standard input
 	Dev  bool   `json:"dev,omitempty"`  // CLI: the FILE argument is /dev/stdin, fed by a pipe (a FILE need not be a regular file)
+	Conv bool   `json:"conv,omitempty"` // CLI: `text conv degree` instead of `text parse` (same language; durations as written)
 }
 
 func trimR(s string) string { return strings.TrimRightFunc(s, unicode.IsSpace) }
@@ -256,9 +260,107 @@ func statusName(st refparse.Status) string {
 	return [...]string{"not a prefix of any sentence", "proper prefix of a sentence", "sentence"}[st]
 }
 
+var plainNum = regexp.MustCompile(`^[1-9][0-9]{0,8}$`)
+
+// plainDegrees: a sentence `text conv degree` has no reason of its own to refuse - scale degrees 1..7, dictionary
+// symbols, positive durations without padding, no metadata.
+func plainDegrees(items []refparse.Item) bool {
+	okDeg := func(d refparse.Deg) bool {
+		return len(d.Head) == 1 && d.Head[0] >= '1' && d.Head[0] <= '7' && (d.Acc == "" || d.Acc == "b" || d.Acc == "#")
+	}
+	chords := 0
+	for _, it := range items {
+		if !it.Rest {
+			chords++
+		}
+		if it.HasMeta || len(it.Vals) == 0 {
+			return false
+		}
+		for _, v := range it.Vals {
+			if !plainNum.MatchString(v.Num) || (v.HasDen && !plainNum.MatchString(v.Den)) {
+				return false
+			}
+		}
+		if it.Rest {
+			continue
+		}
+		if !okDeg(it.Deg) || (it.Bass != nil && !okDeg(*it.Bass)) {
+			return false
+		}
+		if it.HasSym {
+			known := false
+			for _, d := range theory.Displays {
+				known = known || (d != "" && d == it.Sym)
+			}
+			if !known {
+				return false
+			}
+		}
+	}
+	// a piece of rests only says nothing about its notation and `text conv` refuses it ("AST type is unknown")
+	return chords > 0
+}
+
+// checkC04Conv: `text conv` reads the same language as `text parse`: what is not a sentence is refused, and a
+// sentence of plain degrees is accepted with one instance per chord or rest carrying the durations as written.
+func checkC04Conv(c C04Case) *Violation {
+	st := refparse.Classify(c.Text)
+	res := Run{Argv: []string{"text", "conv", "degree"}, Stdin: c.Text}.Exec()
+	if res.TimedOut {
+		return vio("parser-hang:"+endClass(c.Text), "`crd text conv degree` does not terminate on %q", c.Text)
+	}
+	if v := cleanOutcome(res); v != nil {
+		v.Msg = fmt.Sprintf("crd text conv degree on %q: %s", c.Text, v.Msg)
+		return v
+	}
+	if st != refparse.Accept {
+		if res.Exit == 0 {
+			return vio("conv-accepts-non-sentence", "`crd text conv degree` exit 0 on %q, which is: %s", c.Text, statusName(st))
+		}
+		return nil
+	}
+	items, _ := refparse.Parse(c.Text)
+	if !plainDegrees(items) {
+		return nil
+	}
+	if res.Exit != 0 {
+		return vio("conv-rejects-sentence", "`crd text conv degree` exit %d on the sentence %q: %s", res.Exit, c.Text, firstLines(string(res.Stderr), 1))
+	}
+	var out []struct {
+		Chord  *struct{ Degree string } `yaml:"chord"`
+		Values []string                 `yaml:"values"`
+	}
+	if err := yaml.Unmarshal(res.Stdout, &out); err != nil {
+		return vio("conv-output", "text conv output unreadable: %v\n%s", err, res.Stdout)
+	}
+	if len(out) != len(items) {
+		return vio("conv-count", "`crd text conv degree` on %q lists %d chords and rests, %d written", c.Text, len(out), len(items))
+	}
+	for i, it := range items {
+		if (out[i].Chord == nil) != it.Rest {
+			return vio("conv-kind", "`crd text conv degree` on %q: item %d chord/rest differs from what is written", c.Text, i)
+		}
+		var want []string
+		for _, v := range it.Vals {
+			w := v.Num
+			if v.HasDen && v.Den != "1" {
+				w += "/" + v.Den // n/1 is printed n; nothing else is reduced
+			}
+			want = append(want, w)
+		}
+		if strings.Join(want, ",") != strings.Join(out[i].Values, ",") {
+			return vio("conv-values", "`crd text conv degree` on %q: item %d has durations %v, written %v", c.Text, i, out[i].Values, want)
+		}
+	}
+	return nil
+}
+
 func checkC04(c C04Case) *Violation {
 	if !c.CLI {
 		return diffParse(c.Text)
+	}
+	if c.Conv {
+		return checkC04Conv(c)
 	}
 	st := refparse.Classify(c.Text)
 	run := Run{Argv: []string{"text", "parse"}, Stdin: c.Text}
@@ -532,6 +634,51 @@ func TestC04Sentences(t *testing.T) {
 			r.Case("CLI:"+text, true, "through-cli")
 			r.Check(t, checkC04(cc), "c04", cc)
 		}
+		if coin(t, "conv-plain", 6) {
+			// the same grammar behind `text conv`: a sentence of plain scale degrees, durations of any size
+			var sb strings.Builder
+			n := rapid.IntRange(1, 5).Draw(t, "plain-n")
+			num := func(l string) string {
+				if coin(t, l+"-big", 30) {
+					return strconv.Itoa(rapid.SampledFrom([]int{100, 128, 255, 256, 257, 300, 960, 1000, 4096, 65535, 65536, 100000}).Draw(t, l+"-v"))
+				}
+				return strconv.Itoa(rapid.IntRange(1, 12).Draw(t, l))
+			}
+			deg := func(l string) string {
+				return strconv.Itoa(rapid.IntRange(1, 7).Draw(t, l)) + rapid.SampledFrom([]string{"", "", "b", "#"}).Draw(t, l+"-acc")
+			}
+			for i := 0; i < n; i++ {
+				if i > 0 && coin(t, "plain-rest", 25) {
+					sb.WriteString("R")
+				} else {
+					sb.WriteString(deg("plain-deg"))
+					if rapid.Bool().Draw(t, "plain-sym") {
+						sb.WriteString("_" + rapid.SampledFrom(theory.Displays[1:]).Draw(t, "plain-symbol"))
+					}
+					if coin(t, "plain-bass", 25) {
+						sb.WriteString("/" + deg("plain-bass-deg"))
+					}
+				}
+				sb.WriteString("[")
+				k := rapid.IntRange(1, 4).Draw(t, "plain-nvals")
+				for j := 0; j < k; j++ {
+					if j > 0 {
+						sb.WriteString(",")
+					}
+					sb.WriteString(num("plain-num"))
+					if rapid.Bool().Draw(t, "plain-frac") {
+						sb.WriteString("/" + num("plain-den"))
+					}
+				}
+				sb.WriteString("] ")
+			}
+			cc := C04Case{Text: sb.String(), CLI: true, Conv: true}
+			if ref, ok := refparse.Parse(cc.Text); !ok || !plainDegrees(ref) {
+				r.Check(t, vio("harness", "plain-degree sentence %q is not one for the reference recogniser", cc.Text), "c04", cc)
+			}
+			r.Case("CONV:"+cc.Text, true, "through-cli", "text-conv-plain-degrees")
+			r.Check(t, checkC04(cc), "c04", cc)
+		}
 		if coin(t, "very-long-line", 2) {
 			// a line longer than 64 KiB (a piece written on one line, or one long remark) between two short lines:
 			// no line-length limit is documented, the tree must hold every chord of all three lines
@@ -566,6 +713,11 @@ func TestC04Sentences(t *testing.T) {
 				cc := C04Case{Text: mt, CLI: true, File: rapid.Bool().Draw(t, "as-file"), Dev: coin(t, "as-dev-stdin", 15)}
 				r.Case("CLI:"+mt, true, "through-cli")
 				r.Check(t, checkC04(cc), "c04", cc)
+				if mst != refparse.Accept {
+					cv := C04Case{Text: mt, CLI: true, Conv: true}
+					r.Case("CONV:"+mt, true, "through-cli", "text-conv-non-sentence")
+					r.Check(t, checkC04(cv), "c04", cv)
+				}
 			}
 		}
 		// suffix rule: sentence + garbage
